@@ -12,6 +12,7 @@ import WS.Model.WsJson
 import WS.Model.Pool
 import WS.Model.Ping
 import WS.Model.DialReq
+import WS.Model.Mu
 /-
   Command table of the driver.  Every command is a pure function String → String.
 -/
@@ -406,6 +407,42 @@ def cmdPingReg (args : List String) : String :=
     | none => "bad-args"
   | _ => "bad-args"
 
+/-- `mu ops`: ops = comma-separated `L<k><r>` (lock under a context of kind k = v live | p already cancelled |
+s expiring soon, which returned r = o nil | c net.ErrClosed | x the context's error), `T` tryLock, `F` forceLock,
+`U` unlock, `C` the connection is closed. Prints per op what the channel holds afterwards (`L:0`/`L:1`, `T:<bool>:<full>`, …);
+`L:impossible` when no pick of the model's `select` yields the reported result. -/
+def cmdMu (args : List String) : String :=
+  match args with
+  | [ops] =>
+    let b (x : Bool) : String := if x then "1" else "0"
+    let rec go (os : List String) (s : Model.Mu.St) (acc : List String) : List String :=
+      match os with
+      | [] => acc.reverse
+      | o :: rest =>
+        match o.toList with
+        | ['L', k, r] =>
+          let d := k != 'v'
+          let want : Option Model.Mu.Res := match r with
+            | 'o' => some .ok
+            | 'c' => some .errClosed
+            | 'x' => some .errCtx
+            | _ => none
+          match (Model.Mu.picks s d).find? (fun p => some (Model.Mu.lock s d p).2 == want) with
+          | some p => let s1 := (Model.Mu.lock s d p).1; go rest s1 (("L:" ++ b s1.full) :: acc)
+          | none => go rest s ("L:impossible" :: acc)
+        | ['T'] =>
+          let (s1, r) := Model.Mu.tryLock s
+          go rest s1 (("T:" ++ toString r ++ ":" ++ b s1.full) :: acc)
+        | ['F'] =>
+          match Model.Mu.forceLock s with
+          | (s1, .ok) => go rest s1 (("F:" ++ b s1.full) :: acc)
+          | (s1, _) => go rest s1 ("F:blocked" :: acc)
+        | ['U'] => let s1 := Model.Mu.unlock s; go rest s1 (("U:" ++ b s1.full) :: acc)
+        | ['C'] => let s1 := { s with closed := true }; go rest s1 (("C:" ++ b s1.full) :: acc)
+        | _ => go rest s ("bad-op" :: acc)
+    String.intercalate "," (go (ops.splitOn ",") ⟨false, false⟩ [])
+  | _ => "bad-op"
+
 /-- `dial-req callerHdr subprotos copts keyhex`: the values the request carries under the headers Dial is
 responsible for and under the caller's own keys, printed as `key=hexvalue,hexvalue` joined by `;` in key order -/
 def cmdDialReq (args : List String) : String :=
@@ -478,6 +515,7 @@ def handle (line : String) : String :=
     | "netconn" => cmdNetConn args
     | "deadline" => cmdDeadline args
     | "pingreg" => cmdPingReg args
+    | "mu" => cmdMu args
     | "dial-req" => cmdDialReq args
     | "json-rt" => cmdJsonRt args
     | "pool-monitor" => cmdPoolMonitor args
